@@ -43,6 +43,11 @@ def templates():
             T[f'chain_{tn}'] = f"w = {t} = {val}\n"
             T[f'chain2_{tn}'] = f"{t} = w = {val}\n"
             T[f'chain3_{tn}'] = f"{t} = p(5).z = {val}\n"
+            if 'slice' not in tn:
+                # annotated assignment (the annotation itself is a constant: dropped annotations are KF-D33)
+                T[f'ann_{tn}'] = f"{t}: int = {val}\n"
+                T[f'ann_fn_{tn}'] = f"def f():\n    {t}: int = {val}\nf()\n"
+                T[f'ann_cls_{tn}'] = f"class K:\n    {t}: int = {val}\n"
     T['chain_const'] = "x = y = 1\nL('v',x,y)\n"
     T['chain_call'] = "x = y = q(5)\nL('v',x,y)\n"
     ops = ['+', '-', '*', '/', '//', '%', '**', '<<', '>>', '&', '|', '^', '@']
